@@ -56,7 +56,16 @@ def patch_design():
         src = (VERIF / 'coq' / 'Properties' / f'{pid}.v').read_text()
         n = len(re.findall(r'^(?:Theorem|Lemma|Corollary) ', src, flags=re.M))
         total += n
-        text, k = re.subn(rf'^\| {pid} \| \d+ \|', f'| {pid} | {n} |', text, count=1, flags=re.M)
+        ev = json.loads((VERIF / 'evidence' / f'{pid}.json').read_text())
+        audited = [o for o in ev['coverage'].get('obligation_list', []) if o['name'].startswith('theorem ')]
+        with_ax = sum(1 for o in audited if 'axioms: none' not in o.get('detail', ''))
+        if with_ax == 0:
+            ax = 'none'
+        elif with_ax == len(audited):
+            ax = 'R'
+        else:
+            ax = f'none; R under {with_ax} of {len(audited)} audited statements (those linked to a property over the reals)'
+        text, k = re.subn(rf'^\| {pid} \| \d+ \| [^|]* \|', f'| {pid} | {n} | {ax} |', text, count=1, flags=re.M)
         assert k == 1, pid
     coq = sum(len(f.read_text().splitlines()) for f in (VERIF / 'coq').rglob('*.v')
               if 'generated' not in f.parts)
